@@ -5,6 +5,7 @@ from . import accept, provenance
 def run(ctx):
     accept.rule_certificate_shapes(ctx)
     accept.rule_certificate_completion(ctx)
+    accept.rule_completion_semantics(ctx)
     accept.rule_no_shortcut_with_certificate(ctx)
     provenance.rule_argument_provenance(ctx)
     provenance.rule_ownership(ctx)
